@@ -224,6 +224,8 @@ def rule_bm_table(ctx):
             ctx.ob("bm-table", k, k.node, k.name, "kernel receives lhh, lhh_count, key_lens", None)
             continue
         ceiling = k.ptypes[cnt].scalar.range()[1]
+        from .rules_arith import no_early_exit
+        no_early_exit(ctx, "bm-table", k, w, {cnt, keyt, lent}, "rows / cells")
         atoms, missing, keytabs = _key_atoms(F, k, w)
         if not atoms:
             ctx.ob("bm-table", k, k.node, k.name, "the cell update is keyed on a stored-key comparison", None, "no key comparison found")
